@@ -132,6 +132,15 @@ def run(ctx):
     # (separate from the validation above; see harness/layera.py)
     failed_idx = set(c.idx for c in live if reports[c.idx][1] != 0)
     la_cov = layera.run(ctx, cases, validator_failed=failed_idx)
+    # further per-compiler Layer A correspondences, one module per compiler (harness/layera_<x>.py: run(ctx, cases,
+    # validator_failed) -> dict of evidence keys prefixed layerA_<x>_); a module that is absent is skipped
+    import importlib
+    for _m in layera.EXTRA_MODULES:
+        try:
+            _mod = importlib.import_module("harness." + _m)
+        except ModuleNotFoundError:
+            continue
+        la_cov.update(_mod.run(ctx, cases, validator_failed=failed_idx))
     # ------------------------------------------------------------------ end of Layer A block ----------------------
     if not ok_proofs:
         ctx.proof_broken()
